@@ -175,6 +175,9 @@ structure DSt where
   q : Option (QReg Float) := none
   /-- reference circuit of the current op (SPEC side) -/
   spec : Option (List (Spec.SGate Float)) := none
+  /-- what the implementation reported for the current op -/
+  implActOn : Nat := 0
+  implNames : List String := []
 
 structure Report where
   msgs : Array String := #[]
@@ -212,6 +215,17 @@ def cmpSpecVec (r : Report) (st : DSt) (ln : Nat) (cmd : String) (spec : Array (
     else r.specfail st ln cmd (firstDiff spec impl) (showVec impl)
   | none => r.specfail st ln cmd (showVec spec) (String.intercalate " " (obs.take 6))
 
+/-- SPEC (C02): `.c(m)` is refused exactly when `m` overlaps the qubits the operator already
+acts on or is controlled by (as reported by the implementation for the uncontrolled
+operator). -/
+def specCtrlRefusal (r : Report) (st : DSt) (ln : Nat) (m : Nat) (e : MultiOp Float)
+    (implRefused : Bool) : Report :=
+  let r := { r with speclines := r.speclines + 1 }
+  let want := !e.isEmpty && (st.implActOn &&& m != 0) || (e.isEmpty && false)
+  if want == implRefused then r
+  else r.specfail st ln "c02.refuse" (if want then "refused" else "accepted")
+    (if implRefused then "refused" else "accepted")
+
 def step (st : DSt) (r : Report) (ln : Nat) (cmd obs : List String) : DSt × Report :=
   match cmd with
   | "op" :: prog =>
@@ -236,7 +250,11 @@ def step (st : DSt) (r : Report) (ln : Nat) (cmd obs : List String) : DSt × Rep
       let r := { r with speclines := r.speclines + 1 }
       let r := if specObs == implCls then r else r.specfail st ln "op" specObs implCls
       let st := { st with op := (match b with | .ok o => some o | _ => none),
-                          spec := (match d with | .ok gs _ => some gs | _ => none) }
+                          spec := (match d with | .ok gs _ => some gs | _ => none),
+                          implActOn := (match obs with | "ok" :: _ :: a :: _ => a.toNat?.getD 0 | _ => 0),
+                          implNames := (match obs with
+                            | "ok" :: _ :: _ :: n :: _ => if n == "-" then [] else n.splitOn ","
+                            | _ => []) }
       (st, r)
   | ["qreg", n, thr] =>
     match tokNat n, tokNat thr with
@@ -258,6 +276,37 @@ def step (st : DSt) (r : Report) (ln : Nat) (cmd obs : List String) : DSt × Rep
     match st.q with
     | some q => (st, cmpVec r st ln "psi" q.psi obs)
     | none => (st, r.mismatch st ln "psi" "no-reg" "")
+  | ["metadgr"] =>
+    match st.q, st.op, obs with
+    | some q, some e, names :: acton :: rest =>
+      let d := MultiOp.dgr e
+      let o1 := ((q.apply e).apply d).psi
+      let o2 := ((q.apply d).apply e).psi
+      let o3 := (q.apply (MultiOp.mul e d)).psi
+      match parseCVec rest with
+      | some (i1, r2) => match parseCVec r2 with
+        | some (i2, r3) => match parseCVec r3 with
+          | some (i3, _) =>
+            let r := if opNames d == names then r else r.mismatch st ln "metadgr.names" (opNames d) names
+            let r := if toString (MultiOp.actOn d) == acton then r
+                     else r.mismatch st ln "metadgr.acton" (toString (MultiOp.actOn d)) acton
+            let r := if closeVec o1 i1 then r else r.mismatch st ln "metadgr.1" (firstDiff o1 i1) (showVec i1)
+            let r := if closeVec o2 i2 then r else r.mismatch st ln "metadgr.2" (firstDiff o2 i2) (showVec i2)
+            let r := if closeVec o3 i3 then r else r.mismatch st ln "metadgr.3" (firstDiff o3 i3) (showVec i3)
+            -- SPEC (C03): op then dagger, dagger then op and the product op * dgr are the identity;
+            -- the dagger of a product lists the daggers in reverse order
+            let r := { r with speclines := r.speclines + 1 }
+            let r := if closeVec q.psi i1 then r else r.specfail st ln "c03.inv" (firstDiff q.psi i1) (showVec i1)
+            let r := if closeVec q.psi i2 then r else r.specfail st ln "c03.inv'" (firstDiff q.psi i2) (showVec i2)
+            let r := if closeVec q.psi i3 then r else r.specfail st ln "c03.inv*" (firstDiff q.psi i3) (showVec i3)
+            let rev := String.intercalate "," (st.implNames.reverse)
+            let r := if st.implNames.isEmpty || rev == names then r
+                     else r.specfail st ln "c03.rev" rev names
+            (st, r)
+          | none => (st, r.mismatch st ln "metadgr" "three-vectors" "unparsable")
+        | none => (st, r.mismatch st ln "metadgr" "three-vectors" "unparsable")
+      | none => (st, r.mismatch st ln "metadgr" "three-vectors" "unparsable")
+    | _, _, _ => (st, r.mismatch st ln "metadgr" "no-reg-or-op" "")
   | [c] =>
     if c == "apply" || c == "applyeach" then
       match st.q, st.op with
@@ -272,6 +321,109 @@ def step (st : DSt) (r : Report) (ln : Nat) (cmd obs : List String) : DSt × Rep
         ({ st with q := some q' }, r)
       | _, _ => (st, r.mismatch st ln c "no-reg-or-op" "")
     else (st, r.mismatch st ln c "unknown-command" "")
+  | ["metactrl", m] =>
+    match tokNat m, st.q, st.op with
+    | some m, some q, some e =>
+      let ψ := q.psi
+      match MultiOp.c e m, obs with
+      | none, ["refused"] => (st, specCtrlRefusal r st ln m e true)
+      | none, _ => (st, r.mismatch st ln "metactrl" "refused" (String.intercalate " " (obs.take 3)))
+      | some _, ["refused"] =>
+        let r := r.mismatch st ln "metactrl" "ok" "refused"
+        (st, specCtrlRefusal r st ln m e true)
+      | some ec, "ok" :: acton :: rest =>
+        let out1 := (q.apply ec).psi
+        let proj : Array (Cx Float) := Array.ofFn (n := ψ.size) (fun i =>
+          if i.val &&& m = m then ψ.getD i.val 0 else 0)
+        let out2 := ({ q with psi := proj }.apply e).psi
+        match parseCVec rest with
+        | some (i1, rest2) =>
+          match parseCVec rest2 with
+          | some (i2, _) =>
+            let r := if closeVec out1 i1 then r else r.mismatch st ln "metactrl.1" (firstDiff out1 i1) (showVec i1)
+            let r := if closeVec out2 i2 then r else r.mismatch st ln "metactrl.2" (firstDiff out2 i2) (showVec i2)
+            let r := if toString (MultiOp.actOn ec) == acton then r
+                     else r.mismatch st ln "metactrl.acton" (toString (MultiOp.actOn ec)) acton
+            -- SPEC (C02), on the implementation's own vectors: E.c(m) acts as E on the
+            -- subspace "all control bits 1" and leaves every other amplitude untouched
+            let r := { r with speclines := r.speclines + 1 }
+            let want : Array (Cx Float) := Array.ofFn (n := ψ.size) (fun i =>
+              if i.val &&& m = m then i2.getD i.val 0 else ψ.getD i.val 0)
+            let r := if closeVec want i1 then r
+                     else r.specfail st ln "c02.block" (firstDiff want i1) (showVec i1)
+            let r := specCtrlRefusal r st ln m e false
+            -- reported support = targets ∪ controls (of a non-empty operator)
+            let implActE := st.implActOn
+            let r := if e.isEmpty || acton == toString (implActE ||| m) then r
+                     else r.specfail st ln "c02.support" (toString (implActE ||| m)) acton
+            (st, r)
+          | none => (st, r.mismatch st ln "metactrl" "two-vectors" "unparsable")
+        | none => (st, r.mismatch st ln "metactrl" "two-vectors" "unparsable")
+      | some _, _ => (st, r.mismatch st ln "metactrl" "ok" (String.intercalate " " (obs.take 3)))
+    | _, _, _ => (st, r.mismatch st ln "metactrl" "no-reg-or-op" "")
+  | ["metadgrmat", size] =>
+    match tokNat size, st.op with
+    | some size, some e =>
+      let dim := 2 ^ size
+      let mat (o : MultiOp Float) : Array (Cx Float) :=
+        let cols := (List.range dim).map (fun j => MultiOp.applyArr o (QReg.basisBuf dim j))
+        Array.ofFn (n := dim * dim) (fun k => (cols.getD (k.val % dim) #[]).getD (k.val / dim) 0)
+      match parseCVec obs with
+      | some (m1, rest) => match parseCVec rest with
+        | some (m2, _) =>
+          let r := if closeVec (mat e) m1 then r else r.mismatch st ln "metadgrmat.1" (firstDiff (mat e) m1) ""
+          let r := if closeVec (mat (MultiOp.dgr e)) m2 then r
+                   else r.mismatch st ln "metadgrmat.2" (firstDiff (mat (MultiOp.dgr e)) m2) ""
+          -- SPEC (C03): the dagger's matrix is the conjugate transpose
+          let r := { r with speclines := r.speclines + 1 }
+          let ct : Array (Cx Float) := Array.ofFn (n := dim * dim) (fun k =>
+            (m1.getD ((k.val % dim) * dim + k.val / dim) 0).conj)
+          let r := if closeVec ct m2 then r else r.specfail st ln "c03.adj" (firstDiff ct m2) (showVec m2)
+          (st, r)
+        | none => (st, r.mismatch st ln "metadgrmat" "two-matrices" "unparsable")
+      | none => (st, r.mismatch st ln "metadgrmat" "two-matrices" "unparsable")
+    | _, _ => (st, r.mismatch st ln "metadgrmat" "no-op" "")
+  | "metamul" :: prog =>
+    match st.q, st.op, parseProg prog [] with
+    | some q, some e, some fe =>
+      match OpExpr.build qftPhase fe, obs with
+      | .ok f, ae :: af :: rest =>
+        let o1 := (q.apply (MultiOp.mul e f)).psi
+        let o2 := ((q.apply e).apply f).psi
+        let o3 := (e ++ f).foldl (fun (qq : QReg Float) g => qq.apply [g]) q |>.psi
+        let o4 := (q.apply (MultiOp.mul f e)).psi
+        match parseCVec rest with
+        | some (i1, r2) => match parseCVec r2 with
+          | some (i2, r3) => match parseCVec r3 with
+            | some (i3, r4) => match parseCVec r4 with
+              | some (i4, r5) => match parseCVec r5 with
+                | some (i5, _) =>
+                  let r := if closeVec o1 i1 then r else r.mismatch st ln "metamul.1" (firstDiff o1 i1) (showVec i1)
+                  let r := if closeVec o2 i2 then r else r.mismatch st ln "metamul.2" (firstDiff o2 i2) (showVec i2)
+                  let r := if closeVec o3 i3 then r else r.mismatch st ln "metamul.3" (firstDiff o3 i3) (showVec i3)
+                  let r := if closeVec o4 i4 then r else r.mismatch st ln "metamul.4" (firstDiff o4 i4) (showVec i4)
+                  let r := if closeVec o1 i5 then r else r.mismatch st ln "metamul.5" (firstDiff o1 i5) (showVec i5)
+                  -- SPEC (C04): product = factors in queue order, however grouped; identity neutral;
+                  -- operators on disjoint qubits commute
+                  let r := { r with speclines := r.speclines + 1 }
+                  let r := if closeVec i2 i1 then r else r.specfail st ln "c04.seq" (firstDiff i2 i1) (showVec i1)
+                  let r := if closeVec i3 i1 then r else r.specfail st ln "c04.each" (firstDiff i3 i1) (showVec i1)
+                  let r := if closeVec i5 i1 then r else r.specfail st ln "c04.id" (firstDiff i5 i1) (showVec i5)
+                  let disjoint := match ae.toNat?, af.toNat? with
+                    | some a, some b => a &&& b == 0
+                    | _, _ => false
+                  let r := if !disjoint || closeVec i4 i1 then r
+                           else r.specfail st ln "c04.commute" (firstDiff i4 i1) (showVec i4)
+                  (st, r)
+                | none => (st, r.mismatch st ln "metamul" "vectors" "unparsable")
+              | none => (st, r.mismatch st ln "metamul" "vectors" "unparsable")
+            | none => (st, r.mismatch st ln "metamul" "vectors" "unparsable")
+          | none => (st, r.mismatch st ln "metamul" "vectors" "unparsable")
+        | none => (st, r.mismatch st ln "metamul" "vectors" "unparsable")
+      | .ok _, _ => (st, r.mismatch st ln "metamul" "built" (String.intercalate " " (obs.take 2)))
+      | _, _ =>
+        if obs == ["nobuild"] then (st, r) else (st, r.mismatch st ln "metamul" "nobuild" (String.intercalate " " (obs.take 2)))
+    | _, _, _ => (st, r.mismatch st ln "metamul" "no-reg-or-op" "")
   | ["dft", m, kind] =>
     match tokNat m, st.q with
     | some m, some q =>
